@@ -57,6 +57,8 @@ struct Inner {
     panics: Vec<(usize, String)>,
     /// Set when the run is abandoned: parked threads run free.
     abort: bool,
+    /// If set, only these labels are subject to stutter detection (see [`Opts`]).
+    stutter_labels: Option<&'static [&'static str]>,
 }
 
 struct Shared {
@@ -79,7 +81,11 @@ fn park(label: &'static str) {
     if g.abort {
         return;
     }
-    let stutter = is_lock_label(label) && g.resumed_from[tid] == Some(label);
+    let may_block = match g.stutter_labels {
+        Some(list) => list.contains(&label),
+        None => is_lock_label(label),
+    };
+    let stutter = may_block && g.resumed_from[tid] == Some(label);
     g.stutter[tid] = stutter;
     g.threads[tid] = TState::Waiting(label);
     sh.cv.notify_all();
@@ -239,6 +245,24 @@ pub const STEP_BOUND: usize = 100_000;
 /// every decision and once after the last thread finished, while *all* participants are parked, so
 /// it may inspect shared state race-free; returning `Err` abandons the schedule.
 pub fn run(jobs: Vec<Job>, chooser: &mut dyn Chooser, on_step: &mut dyn FnMut(&[Event]) -> Result<(), String>) -> Outcome {
+    run_opts(jobs, chooser, on_step, &Opts::default())
+}
+
+/// Options of [`run_opts`].
+#[derive(Clone, Copy, Debug, Default)]
+pub struct Opts {
+    /// Labels at which a thread can really be blocked (a lock that some *parked* participant may
+    /// hold across a yield point). `None` = every `sync.*` / `history.*` label (the default rule).
+    /// With `Some(list)` a thread that comes back to a label outside the list is never taken for a
+    /// failed try-lock: two consecutive acquisitions of *different* locks that share a label (e.g.
+    /// `running.write()` followed by `updated.write()`, or `history.write` in `update` followed by
+    /// `history.write` in `mark_update_done`) then stay two independently schedulable steps instead
+    /// of the second one being disabled until another thread has moved.
+    pub stutter_labels: Option<&'static [&'static str]>,
+}
+
+/// Like [`run`] with explicit options.
+pub fn run_opts(jobs: Vec<Job>, chooser: &mut dyn Chooser, on_step: &mut dyn FnMut(&[Event]) -> Result<(), String>, opts: &Opts) -> Outcome {
     install();
     let n = jobs.len();
     let sh = Arc::new(Shared {
@@ -249,6 +273,7 @@ pub fn run(jobs: Vec<Job>, chooser: &mut dyn Chooser, on_step: &mut dyn FnMut(&[
             trace: Vec::new(),
             panics: Vec::new(),
             abort: false,
+            stutter_labels: opts.stutter_labels,
         }),
         cv: Condvar::new(),
     });
